@@ -927,6 +927,94 @@ class Session:
             self.liveness(cls)
 
     # ---- one history
+    def concurrent(self, rng, clients, per_client, with_writer):
+        """Concurrent clients against one service: `clients` threads send echo evaluations (each with its own generated
+        value) while, with `with_writer`, another client keeps replacing and re-deploying the echo model. Whatever the
+        interleaving, every answer must be a well-formed document that is either the echo of ITS OWN request or - only
+        while the writer has the model stashed - an errors document saying the model is not deployed. Judged after the
+        threads have joined."""
+        import random as _random
+
+        f = self.found
+        self.log = []
+        self.model = WsModel()
+        self.eval_known = True
+        self.echo_key_cls = rng.choice(list(KEY_CLASSES))
+        self.echo_model = echo_model(rng, self.echo_key_cls)
+        mE = self.echo_model[0]
+        self.defs_op("clear")
+        self.defs_op("add", mE)
+        self.defs_op("deploy")
+        if self.dead or "E" not in self.model.evaluators:
+            return
+        prefix = list(self.log)
+        plans = []
+        for _c in range(clients):
+            crng = _random.Random(rng.getrandbits(64))
+            plans.append([self.echo_request(crng) for _ in range(per_client)])
+        answers = [[] for _ in range(clients)]
+        stop = threading.Event()
+        writer_log = []
+
+        def client(c):
+            for item in plans[c]:
+                answers[c].append(send(self.port, item[0]))
+
+        def writer():
+            wr = rq("POST", "/definitions/replace", {"content": b64(mE.xml)})
+            wd = rq("POST", "/definitions/deploy")
+            while not stop.is_set():
+                writer_log.append((wr, send(self.port, wr)))
+                writer_log.append((wd, send(self.port, wd)))
+
+        ts = [threading.Thread(target=client, args=(c,), daemon=True) for c in range(clients)]
+        wt = threading.Thread(target=writer, daemon=True) if with_writer else None
+        if wt:
+            wt.start()
+        for t in ts:
+            t.start()
+        for t in ts:
+            t.join()
+        stop.set()
+        if wt:
+            wt.join()
+        mode = "with-writer" if with_writer else "readers-only"
+        for wr, resp in writer_log:
+            f.requests += 1
+            doc = self.json_of(resp, wr, "concurrent-definitions", replay_log=prefix + [wr])
+            if doc is not None and "errors" in doc:
+                f.violation("concurrent:%s:definitions-operation-rejected" % mode, "%s answered %r while echo evaluations were in flight" % (wr["path"], resp.body[:200]), prefix + [wr], "ok", resp.brief())
+        not_deployed = 0
+        for c in range(clients):
+            for (r, cls, want, dec, via), resp in zip(plans[c], answers[c]):
+                f.requests += 1
+                f.bump("concurrent:%s:requests" % mode)
+                doc = self.json_of(resp, r, "concurrent-echo", replay_log=prefix + [r])
+                if doc is None:
+                    continue
+                if "errors" in doc:
+                    if with_writer and "not deployed" in doc["errors"][0]["details"]:
+                        not_deployed += 1
+                        continue
+                    f.violation("concurrent:%s:echo-rejected" % mode, "%s of E/%s answered %r with %d clients in flight" % (via, dec, resp.body[:300], clients), prefix + [r], repr(want), resp.brief())
+                    continue
+                try:
+                    got = doc["data"] if via == "evaluate" else tck_decode(doc["data"].get("value"))
+                except (ValueError, KeyError, AttributeError, TypeError, ArithmeticError) as e:
+                    f.violation("concurrent:%s:bad-tck-output" % mode, "cannot decode %r: %s" % (resp.body[:300], e), prefix + [r], repr(want), resp.brief())
+                    continue
+                want_cmp = want[1] if (cls == "temporal" and via == "evaluate") else want
+                if not same_value(got, want_cmp):
+                    f.violation("concurrent:%s:answer-is-not-the-echo-of-its-own-request" % mode, "%s of E/%s: sent %r, decoded %r (body %r) with %d clients in flight" % (via, dec, want, got, resp.body[:300], clients), prefix + [r], repr(want), resp.brief())
+        f.bump("concurrent:%s:answered-not-deployed" % mode, not_deployed)
+        f.bump("concurrent:phases")
+        f.seen.add(("concurrent", mode, clients))
+        # the service must still serve afterwards
+        self.log = list(prefix)
+        self.defs_op("deploy")
+        if not self.dead:
+            self.do_echo(rng)
+
     def history(self, rng, length):
         self.log = []
         self.model = WsModel()
@@ -1066,8 +1154,8 @@ class Pool:
 
 def plan(tier):
     if tier == "quick":
-        return {"histories": 96, "len": (20, 60), "servers": 16, "max_seconds": 600}
-    return {"histories": 1600, "len": (20, 200), "servers": 16, "max_seconds": 3000}
+        return {"histories": 96, "len": (20, 60), "servers": 16, "max_seconds": 600, "concurrent_phases": 2, "concurrent_per_client": 40}
+    return {"histories": 1600, "len": (20, 200), "servers": 16, "max_seconds": 3000, "concurrent_phases": 12, "concurrent_per_client": 60}
 
 
 def run(rep, tier, seed):
@@ -1082,6 +1170,7 @@ def run(rep, tier, seed):
         "/evaluate inputs are written as FEEL literals with the DMN 1.3 string escapes; /tck/evaluate inputs are sent verbatim",
         "remove is sent only with exact or absent (namespace,name) pairs (cross pairs belong to C17); replace with a one-key clash and evaluation after a "
         "no-op remove/failed replace are open in the statement and counted as undecided",
+        "concurrent phase: 4-16 client threads send echo evaluations to one service, on every other service while a writer replaces and re-deploys the model; an answer must be the echo of its own request or (writer active) 'not deployed'; only the interleavings that occurred are covered",
         "responses to malformed HTTP framing (raw sockets) are not judged, only the liveness of the service afterwards; a closed connection while an oversize body is still being sent is not judged",
     ]
     p = plan(tier)
@@ -1100,6 +1189,11 @@ def run(rep, tier, seed):
                     break
                 sess.history(rng_for(seed, "c18-history", h), lengths[h])
                 founds[k].bump("histories")
+            # concurrent clients (half of the services with a writer that keeps replacing / re-deploying the model)
+            for j in range(p["concurrent_phases"]):
+                if sess.dead:
+                    break
+                sess.concurrent(rng_for(seed, "c18-concurrent", k, j), clients=[4, 8, 16][(k + j) % 3], per_client=p["concurrent_per_client"], with_writer=(k + j) % 2 == 0)
         except Exception:  # noqa: BLE001
             import traceback
 
@@ -1144,6 +1238,7 @@ def run(rep, tier, seed):
     rep.extra["transient_probe_failures"] = sum(f.transient for f in founds)
     rep.extra["echo_requests_by_endpoint_and_class"] = {k[5:]: v for k, v in sorted(counters.items()) if k.startswith("echo:")}
     rep.extra["malformed_requests_by_class"] = {k[10:]: v for k, v in sorted(counters.items()) if k.startswith("malformed:")}
+    rep.extra["concurrent_clients"] = {k[11:]: v for k, v in sorted(counters.items()) if k.startswith("concurrent:")}
     rep.extra["oversize_bodies_closed_before_response"] = counters.get("oversize-closed-early", 0)
     rep.extra["services"] = len(ready)
     rep.extra["workers_per_service"] = ready[0]["workers"]
